@@ -5,14 +5,14 @@ import random
 from lib import vf
 
 
-def run_driver(ctx, what, n, cases=None):
+def run_driver(ctx, what, n, cases=None, extra=()):
     out = os.path.join(ctx.tmp, "builder-%s.ndjson" % what.replace(",", "_"))
     args = ["builder", "-out", out, "-what", what, "-n", n]
     if cases is not None:
         cpath = os.path.join(ctx.tmp, "builder-cases-%s.ndjson" % what.replace(",", "_"))
         vf.write_ndjson(cpath, cases)
         args += ["-cases", cpath]
-    ctx.run_vh(args)
+    ctx.run_vh(args + list(extra))
     ev = vf.read_ndjson(out)
     os.unlink(out)
     return ev
